@@ -203,6 +203,7 @@ func (c *Ctx) index() {
 	for fn := range c.all {
 		c.funcs[fn.String()] = fn
 	}
+	c.normalizeSSA()
 }
 
 // Func finds a function by its qualified SSA name, e.g.
